@@ -1056,8 +1056,15 @@ class Builtins:
         if obj.ty and obj.ty.startswith('enumdict'):
             raise Unsupported('Enum.get')
         self.world.ops.outcome(it, [(z3.Not(O._hashable(key)), 'TypeError'), (O._hashable(key), None)], 'get key')
+        if O.ctor(it.refine(key)) == 'StrV':
+            self.world.lazy_instantiate(it, it.refine(t), it.refine(key).arg(0))
         present = z3.And(V.is_StrV(key), z3.Select(V.dhas(t), V.s(key)))
-        return SV(simp(z3.If(present, z3.Select(V.dmap(t), V.s(key)), default)), O._elem_type(obj.ty))
+        # fork on presence: later terms stay free of if-then-else chains
+        if it.branch(present, 'dict.get'):
+            el = simp(z3.Select(V.dmap(t), V.s(it.refine(key))))
+            self.world.element_kind(it, el, O._elem_type(obj.ty))
+            return SV(el, O._elem_type(obj.ty))
+        return SV(default, None)
 
     def dm_copy(self, it, obj, a, k):
         t = obj.t
